@@ -6,7 +6,7 @@
    succ/pred = np.nextafter(., +inf / -inf), abstract: any [carrier isD succ pred] (Base/Carrier.v);
    [isD] = representable values.  Scores are quantified as [scores] records; sortedness of the two
    classes ([wf s], established by the constructor) is only needed where stated. *)
-From SA Require Import Model.Auc Model.Harness Proofs.ClampFacts Proofs.AucFacts Proofs.AucStepFacts.
+From SA Require Import Model.Auc Model.Harness Proofs.ClampFacts Proofs.AucFacts Proofs.AucStepFacts Proofs.CarrierB64.
 Open Scope Q_scope.
 
 (* ---- reference quantities, spelled out ---- *)
@@ -116,6 +116,22 @@ Theorem C07_partial_le_width :
   0 <= auc succ pred s lower upper AFpr ATpr /\ auc succ pred s lower upper AFpr ATpr <= upper - lower.
 Proof. exact stmt_partial_le_width. Qed.
 Print Assumptions C07_partial_le_width.
+
+(* ---- the carrier hypothesis holds for the executable binary64 nextafter of the model (the functions every
+   correspondence run compares bit for bit with np.nextafter): [isD64] = the rationals m * 2^e with |m| < 2^53,
+   e >= -1074 (no overflow bound: the model has no infinities), proved in Proofs/CarrierB64.v from the definitions of
+   succ64 / pred64, pure Q / Z arithmetic ---- *)
+Theorem C07_binary64_is_a_carrier : carrier isD64 succ64 pred64.
+Proof. exact b64_carrier. Qed.
+Print Assumptions C07_binary64_is_a_carrier.
+
+(* ... so clause 1 holds of the binary64 model without any hypothesis on nextafter *)
+Theorem C07_full_auc_mw_binary64 :
+  forall s : scores,
+  pos s <> [] -> neg s <> [] -> (0 <= easy_pos s)%Z -> (0 <= easy_neg s)%Z -> Forall isD64 (pos s ++ neg s) ->
+  auc succ64 pred64 s 0 1 AFpr ATpr == C07_mw s.
+Proof. exact (C07_full_auc_mw isD64 succ64 pred64 b64_carrier). Qed.
+Print Assumptions C07_full_auc_mw_binary64.
 
 (* the hypotheses are satisfiable (toy carrier: the integers with +-1) *)
 Example C07_example_hyps :
